@@ -704,6 +704,25 @@ theorem exc_script_eval (bad : Term → Bool) (p : Py) (hp : p.sort = some .stre
   obtain ⟨it, h1, h2⟩ := exc_eval bad p hp
   exact ⟨it, h1, fun rs n hc => by rw [exc_script bad it rs n hc, h2]⟩
 
+/-- **C01.8c** `peek(k)` (= `copy().take(k)`, an `itertools.tee` over the data) answers like `take(k)`: the
+items of the next `k` outcomes or the first exception among them; afterwards the items it saw are STILL in the
+Stream, the exception it met is GONE from it (a later read does not see it again), and the data goes on behind it. -/
+theorem exc_peek (bad : Term → Bool) (e : Iter) (k : Nat) :
+    (e.peekE bad k []).1 = takeOuts (e.drainE bad k) ∧
+    (ReadOut.metEnd (.peek k) (.took (takeOuts (e.drainE bad k))) = false → ∀ m,
+      ((e.peekE bad k []).2).drainE bad ((itemTerms (e.drainE bad k)).length + m) =
+        (itemTerms (e.drainE bad k)).map .item ++
+          (e.drainE bad (takeUsed (e.drainE bad k) + m)).drop (takeUsed (e.drainE bad k))) := by
+  obtain ⟨hp1, hp2⟩ := Iter.peekE_outs bad k [] e
+  refine ⟨by rw [hp1]; cases takeOuts (e.drainE bad k) <;> simp, fun hend m => ?_⟩
+  have hend' : ReadOut.metEnd (.take k) (.took (takeOuts (e.drainE bad k))) = false := by
+    cases h : takeOuts (e.drainE bad k) with
+    | error t => rfl
+    | ok xs => rw [h] at hend; simpa [ReadOut.metEnd] using hend
+  rw [hp2]
+  simp only [List.nil_append]
+  rw [Iter.drainE_buffer, Iter.takeE_state' bad k e hend' m]
+
 /-! non-vacuity of C01.6 – C01.8 -/
 
 /-- `7 / x` over `[1, 0, 2]` plus `[10, 20, 30]`, as an iterator tree -/
@@ -735,6 +754,16 @@ example : readsCost [.next, .take 2, .next] ≤ 4 := by decide
 example : scriptOuts [.next, .take 2, .next] (demoE.outs demoBad 4) =
     [.one (.item (.app n!"__add__" [.app n!"__truediv__" [.atom 7, .atom 1], .atom 10])),
      .took (.error (.app n!"__truediv__" [.atom 7, .atom 0])),
+     .one (.item (.app n!"__add__" [.app n!"__truediv__" [.atom 7, .atom 2], .atom 20]))] := by rfl
+/-- `peek(3)` meets the exception of position 1: position 0 is still there, the exception is not, position 2 follows -/
+example : ReadOut.metEnd (.peek 3) (.took (takeOuts (demoIt.drainE demoBad 3))) = false := by rfl
+example : (demoIt.script demoBad [.peek 3, .next, .next]).1 =
+    [.took (.error (.app n!"__truediv__" [.atom 7, .atom 0])),
+     .one (.item (.app n!"__add__" [.app n!"__truediv__" [.atom 7, .atom 1], .atom 10])),
+     .one (.item (.app n!"__add__" [.app n!"__truediv__" [.atom 7, .atom 2], .atom 20]))] := by rfl
+example : scriptOuts [.peek 3, .next, .next] (demoE.outs demoBad 5) =
+    [.took (.error (.app n!"__truediv__" [.atom 7, .atom 0])),
+     .one (.item (.app n!"__add__" [.app n!"__truediv__" [.atom 7, .atom 1], .atom 10])),
      .one (.item (.app n!"__add__" [.app n!"__truediv__" [.atom 7, .atom 2], .atom 20]))] := by rfl
 /-- a `take` that meets the end closes the observation -/
 example : scriptOuts [.take 3, .next] [.item (.atom 1)] = [.took (.ok [.atom 1])] := by rfl
